@@ -23,26 +23,30 @@ type undoItem struct {
 func (h *Sources) Save() {
 	defer h.Reset()
 
-	if h.skip {
-		return
-	}
-
 	// Get the undo states for the current line.
 	line := h.getLineHistory()
 	if line == nil {
 		return
 	}
 
-	// When we add an item to the undo history, the states that have been
-	// undone are dropped: the history is cut after the state we are on.
+	// When a command other than undo/redo has run, the states that have been
+	// undone are dropped: the history is cut after the state we are on. This
+	// also applies to commands that don't save their own state (eg. inserted
+	// text), or the undone states would come back on later undos.
 	// This must be done before looking at the most recent state below:
 	// while undoing, the most recent one is not the one we are on.
-	if line.pos > len(line.items) {
-		line.pos = len(line.items)
+	if !h.undoing {
+		if line.pos > len(line.items) {
+			line.pos = len(line.items)
+		}
+
+		if line.pos > 0 {
+			line.items = line.items[:len(line.items)-line.pos+1]
+		}
 	}
 
-	if line.pos > 0 {
-		line.items = line.items[:len(line.items)-line.pos+1]
+	if h.skip {
+		return
 	}
 
 	// When the line is identical to the previous undo, we just update
